@@ -535,7 +535,7 @@ func runC02(c *engine.Ctx) {
 			}}, "421 only for a present, mismatching server name")
 		})
 	}
-	c.Floor(n8, 2)
+	c.Floor(n8, 1) // the two plugins may share one guard
 
 	// ---- R9 pooled codec recycling (shared with C01.R8): the http2http plugin family keeps the connection after Handle returns ----
 	checkRecycle(c, "R9")
